@@ -400,14 +400,14 @@ Section Model.
   Definition keys_sorted {A} (sq : list (N * A)) : bool :=
     match sq with [] => true | (k, _) :: r => keys_sorted_from k r end.
 
-  (** input well-formedness: keys of a file strictly increasing; blocks of a key well-formed,
-      ordered and disjoint *)
+  (** input well-formedness: keys of a file strictly increasing; every block well-formed
+      (the blocks of a key may overlap or be out of order, inside a file and across files) *)
   Fixpoint strict_keys_from (prev : N) (f : file) : bool :=
     match f with [] => true | g :: r => (prev <? gkey g)%N && strict_keys_from (gkey g) r end.
   Definition strict_keys (f : file) : bool :=
     match f with [] => true | g :: r => strict_keys_from (gkey g) r end.
   Definition wf_group (g : kgroup) : bool :=
-    nonempty (snd (fst g)) && forallb wf_blk (gblocks g) && ordered (gblocks g).
+    nonempty (snd (fst g)) && forallb wf_blk (gblocks g).
   Definition wf_file (f : file) : bool := strict_keys f && forallb wf_group f.
 End Model.
 
